@@ -4,14 +4,18 @@ import (
 	"encoding/json"
 	"fmt"
 
+	simdjson "github.com/minio/simdjson-go"
+
 	"verifharness/ev"
 	"verifharness/gen"
 	"verifharness/ref"
+	"verifharness/walk"
 )
 
 func init() { register("C01", runC01, replayC01) }
 
 type c01State struct {
+	ndReuse   *simdjson.ParsedJson
 	n         int
 	minimized int
 }
@@ -87,6 +91,26 @@ func (w *W) c01Judge(st *c01State, g string, in []byte) {
 			}, 1500)
 		}
 		w.Violation("C01/"+dir+"/"+q(min), fmt.Sprintf("Parse (%s) %s: class=%s err=%v input=%s (minimised from %s)", cfg, dir, a.Class, err, q(min), q(in)), cs)
+	}
+	if st.n%8 == 0 && a.Class != ref.Either {
+		// the reuse object was last used by ParseND (pointer style): no NDJSON behaviour may leak into Parse
+		w.setKernel(false)
+		nd, e := simdjson.ParseND([]byte("{\"nd\":1}\n[2]\n"), st.ndReuse)
+		if e == nil {
+			st.ndReuse = nd
+			var pj *simdjson.ParsedJson
+			var err error
+			pan := walk.Guard(func() error { pj, err = simdjson.Parse(in, nd); return nil })
+			w.Eval(1)
+			if pan == nil && (err == nil) != (a.Class == ref.MustAccept) {
+				w.Violation("C01/after-ParseND-reuse/"+map[bool]string{true: "accept-invalid", false: "reject-valid"}[err == nil]+"/"+q(in), fmt.Sprintf("Parse with a reuse object last used by ParseND: class=%s err=%v input=%s", a.Class, err, q(in)), cs)
+			}
+			if err == nil && pj != nil {
+				st.ndReuse = pj
+			} else {
+				st.ndReuse = nil
+			}
+		}
 	}
 	if w.WantSample() {
 		w.Sample(map[string]interface{}{"gen": g, "input": q(in), "class": a.Class.String()})
